@@ -23,6 +23,7 @@ use sv_harness::TRANSCRIPT;
 use sv_harness::enc;
 use sv_harness::err_json;
 use sv_harness::globals;
+use sv_harness::globals_with_host_api;
 use sv_harness::run_cases;
 use sv_harness::take_transcript;
 
@@ -75,7 +76,9 @@ fn main() {
     run_cases(|c| {
         let opts = &c["opts"];
         let dialect = dialect_of(opts);
-        let g = globals();
+        // `host_api`: the globals additionally contain intern / same / set_extra / get_extra (C03: roots reachable
+        // only through host APIs)
+        let g = if opts["host_api"].as_bool().unwrap_or(false) { globals_with_host_api() } else { globals() };
         starlark::verif_hooks::set_poison(opts["poison"].as_bool().unwrap_or(false));
         // 1. library modules: evaluated, frozen, loadable by name
         let mut frozen: Vec<(String, FrozenModule)> = Vec::new();
@@ -129,6 +132,11 @@ fn main() {
                     };
                     module.set(k, hv);
                 }
+            }
+            if let Some(s) = opts["extra_value"].as_str() {
+                // the embedder's extra value: a list holding a runtime string
+                let sv = module.heap().alloc(s);
+                module.set_extra_value(module.heap().alloc(vec![sv]));
             }
             let mut eval = Evaluator::new(&module);
             eval.set_loader(&loader);
